@@ -7,7 +7,10 @@
 (* connections).  Conns and Stoppers are sets of strings here.               *)
 EXTENDS Scen
 
-Script == ndJsonDeserialize(IOEnv.SCRIPT)[1].script
+\* one line per script; all scripts of a file are executed in one TLC run (one initial state each)
+Scripts == ndJsonDeserialize(IOEnv.SCRIPT)
+VARIABLE sidx
+Script == Scripts[sidx].script
 EnvS0 ==
   /\ NEnv < Len(Script)
   /\ LET x == Script[NEnv + 1] IN
@@ -24,7 +27,7 @@ EnvS0 ==
                            /\ Log(E("panic", x.c, x.i, "", "", FALSE))
 EnvS == EnvS0 /\ UNCHANGED pinline
 ScriptNext == IF ENABLED ServerQ THEN ServerQ ELSE EnvS
-ScriptSpec == SInit /\ [][ScriptNext]_svars
+ScriptSpec == SInit /\ sidx \in 1..Len(Scripts) /\ [][ScriptNext /\ UNCHANGED sidx]_<<svars, sidx>>
 ScriptDone == ~ENABLED ServerQ /\ (NEnv = Len(Script) \/ ~ENABLED EnvS)
-EmitScript == ~ScriptDone \/ PrintT(ToJson([behaviour |-> hist, complete |-> NEnv = Len(Script)]))
+EmitScript == ~ScriptDone \/ PrintT(ToJson([behaviour |-> hist, complete |-> NEnv = Len(Script), script |-> sidx]))
 =============================================================================
